@@ -110,6 +110,11 @@ func c19Materialise(r *core.Rand, dir string, entries []c19Entry) (deleteLater [
 		switch e.kind {
 		case "good":
 			err = os.WriteFile(p, c19GoodFeed(r, i), 0644)
+			if r.Chance(1, 4) {
+				// modification times say nothing about readability: far future (a collector whose clock runs ahead), the epoch, just now
+				mt := core.Pick(r, []time.Time{time.Now().Add(24 * time.Hour), time.Date(2100, 1, 1, 0, 0, 0, 0, time.UTC), time.Unix(86400, 0), time.Now().Add(2 * time.Second)})
+				os.Chtimes(p, mt, mt)
+			}
 			goodCount++
 			if firstGood == "" {
 				firstGood = e.name
